@@ -469,3 +469,46 @@ func init() {
 			map[string]LT{"types.AllowedBidder": "Allowed"}),
 	)
 }
+
+func init() {
+	// ---- the gRPC query handlers (keeper/query_*.go), store-threaded and read-only.  All pages of
+	// a paginated listing together are `Go.paginate records pred transform`; how the SDK cuts the
+	// list into pages is not modelled.
+	errIs := callSpec{Value: V{"%1", "Bool"}}
+	q := func(name string, req LT, resp LT, calls map[string]callSpec, tn map[string]LT) Unit {
+		if calls == nil {
+			calls = map[string]callSpec{}
+		}
+		calls["errors.Is"] = errIs
+		return Unit{Group: "Queries", Name: "Query_" + name, Pkg: keeperP, Recv: "queryServer", RecvLean: "queryServer", Func: name, StoreOn: true, JoinIfs: true,
+			Params: []gparam{{Go: "q", T: "Keeper"}, {Go: "ctx"}, {Go: "req", T: req}}, Ret: []LT{"Option " + resp, "Err"}, Calls: calls, TypeNames: tn}
+	}
+	units = append(units,
+		q("ListBid", "ListBidReq", "ListBidResp", map[string]callSpec{
+			"paginate:Bid":             {Walk: "(GStore.allBids %s)", WalkPrefix: "(GStore.bidsOf %s %p)", Value: V{T: "List Bid"}},
+			"sdk.AccAddressFromBech32": {Value: V{"(Go.optAccParse %1)", "(Acc × Err)"}},
+			"strconv.ParseBool":        {Value: V{"(Go.parseBoolStr %1)", "(Bool × Err)"}},
+		}, map[string]LT{"types.Bid": "Bid"}),
+		q("GetBid", "GetBidReq", "GetBidResp", map[string]callSpec{
+			"k.k.Bid.Get": {Store: "(GStore.bidGet st__ %1 %2)", Kind: "r", Args: []int{1}, Value: V{T: "(Bid × Err)"}},
+		}, nil),
+		q("ListAuction", "ListAuctionReq", "ListAuctionResp", map[string]callSpec{
+			"paginate:Auction":  {Walk: "(GStore.allAuctions %s)", Value: V{T: "List Auction"}},
+			"types.PackAuction": {Value: V{"(%1, false)", "(Auction × Err)"}},
+		}, map[string]LT{"*codectypes.Any": "Auction"}),
+		q("GetAuction", "GetAuctionReq", "GetAuctionResp", map[string]callSpec{
+			"k.k.Auction.Get":   {Store: "(GStore.auctionGet st__ %1)", Kind: "r", Args: []int{1}, Value: V{T: "(Auction × Err)"}},
+			"types.PackAuction": {Value: V{"(%1, false)", "(Auction × Err)"}},
+		}, nil),
+		q("ListAllowedBidder", "ListAllowedReq", "ListAllowedResp", map[string]callSpec{
+			"paginate:AllowedBidder": {Walk: "(GStore.allAllowed %s)", WalkPrefix: "(GStore.allowedArgsOf %s %p)", Value: V{T: "List AllowedArg"}},
+		}, map[string]LT{"types.AllowedBidder": "AllowedArg"}),
+		q("GetAllowedBidder", "GetAllowedReq", "GetAllowedResp", map[string]callSpec{
+			"k.k.AllowedBidder.Get":    {Store: "(GStore.allowedGet st__ %1 %2)", Kind: "r", Args: []int{1}, Value: V{T: "(AllowedArg × Err)"}},
+			"sdk.AccAddressFromBech32": {Value: V{"(%1, !validAcc %1)", "(Acc × Err)"}},
+		}, nil),
+		q("ListVestingQueue", "ListVqReq", "ListVqResp", map[string]callSpec{
+			"paginate:VestingQueue": {Walk: "(GStore.allVqs %s)", WalkPrefix: "(GStore.vqsOf %s %p)", Value: V{T: "List VQ"}},
+		}, map[string]LT{"types.VestingQueue": "VQ"}),
+	)
+}
